@@ -101,7 +101,10 @@ def wf_table(rng, sep, transposed=None, kinds=None, n_row=None):
             units.append(k)
             continue
         while True:
-            u = rng.choice(["-", "m", "kg", "mm", "°C", "m/s", "%", "N m", "", "1/s"])
+            # units are case-sensitive: 'mm' and 'Mm', 's' and 'S', 't' and 'T' are different units, also when both
+            # occur in one bundle or one after the other in one process
+            u = rng.choice(["-", "m", "kg", "mm", "°C", "m/s", "%", "N m", "", "1/s", "Mm", "M", "KG", "Kg", "s", "S",
+                            "t", "T", "Text", "DateTime", "ONOFF"])
             if any(c in bad for c in u) or u in ("text", "onoff", "datetime"):
                 continue
             if j == 0 and not transposed and (is_blank(u) or classify(u) is not None):
